@@ -21,6 +21,7 @@ type LValue struct {
 	heapSort string
 	idx      Term
 	idx2     Term
+	off      Term // lvElem: window offset (idx2 is relative to it); "" means 0
 	parent   *LValue
 	fieldIdx int
 	si       *structInfo
@@ -76,6 +77,7 @@ type State struct {
 	dargs      map[*deferRec]*callArgs
 	decrVals   map[string]Term
 	retSite    ssa.Instruction
+	callRes    map[string][]Term // results of calls on this path, by site name ("call.Recv#1")
 }
 
 type arrInfo struct {
@@ -86,7 +88,7 @@ type arrInfo struct {
 
 func (st *State) clone() *State {
 	n := &State{fx: st.fx, alloc: st.alloc, dead: st.dead, entryHeap: st.entryHeap, callDepth: st.callDepth,
-		deferStack: st.deferStack, dargs: st.dargs, decrVals: st.decrVals, retSite: st.retSite}
+		deferStack: st.deferStack, dargs: st.dargs, decrVals: st.decrVals, retSite: st.retSite, callRes: st.callRes}
 	n.vals = make(map[ssa.Value]Term, len(st.vals))
 	for k, v := range st.vals {
 		n.vals[k] = v
@@ -177,7 +179,11 @@ func (st *State) loadLV(lv *LValue) Term {
 	case lvHeap:
 		return "(select " + st.heapGet(lv.heap, lv.heapSort) + " " + lv.idx + ")"
 	case lvElem:
-		return "(select (select " + st.heapGet(lv.heap, lv.heapSort) + " " + lv.idx + ") " + lv.idx2 + ")"
+		arr := "(select " + st.heapGet(lv.heap, lv.heapSort) + " " + lv.idx + ")"
+		if lv.off != "" && lv.off != "0" {
+			arr = st.fx.winOf(lv.elemSort, arr, lv.off)
+		}
+		return "(select " + arr + " " + lv.idx2 + ")"
 	case lvSub:
 		return "(" + lv.si.fields[lv.fieldIdx] + " " + st.loadLV(lv.parent) + ")"
 	}
@@ -191,7 +197,11 @@ func (st *State) storeLV(lv *LValue, v Term) {
 		st.heapSet(lv.heap, lv.heapSort, "(store "+h+" "+lv.idx+" "+v+")")
 	case lvElem:
 		h := st.heapGet(lv.heap, lv.heapSort)
-		st.heapSet(lv.heap, lv.heapSort, "(store "+h+" "+lv.idx+" (store (select "+h+" "+lv.idx+") "+lv.idx2+" "+v+"))")
+		abs := lv.idx2
+		if lv.off != "" && lv.off != "0" {
+			abs = "(+ " + lv.off + " " + lv.idx2 + ")"
+		}
+		st.heapSet(lv.heap, lv.heapSort, "(store "+h+" "+lv.idx+" (store (select "+h+" "+lv.idx+") "+abs+" "+v+"))")
 	case lvSub:
 		old := st.loadLV(lv.parent)
 		var parts []string
